@@ -185,10 +185,46 @@ func (m *gmachine) exec(ev map[string]any) {
 		ax, _ := json.Marshal(proj.NodeList(x))
 		ay, _ := json.Marshal(proj.NodeList(y))
 		ev["same"] = string(ax) == string(bx) && string(ay) == string(by)
+		// relating the second list at every position of the first (and at one that is not there), on fresh copies
+		rl := []any{}
+		argsame := true
+		for _, at := range []string{"a", "b", "g"} {
+			xc := proj.ToNodeList(obj(ev, "x"))
+			err := xc.RelateNodeListAtID(y, at, sbom.Edge_Type(5))
+			rl = append(rl, map[string]any{"at": at, "err": errText(err), "r": proj.NodeList(xc)})
+			ay3, _ := json.Marshal(proj.NodeList(y))
+			argsame = argsame && string(ay3) == string(by)
+		}
+		ev["rl"] = rl
 		x.Add(y)
 		ev["ad"] = proj.NodeList(x)
 		ay2, _ := json.Marshal(proj.NodeList(y))
-		ev["argsame"] = string(ay2) == string(by)
+		ev["argsame"] = argsame && string(ay2) == string(by)
+		return
+	case "EditAll":
+		// one list of the exported universe through every removal (all subsets of a, b, g) and every relating of a node
+		rm := []any{}
+		for mask := 0; mask < 8; mask++ {
+			ids := []string{}
+			for k, id := range []string{"a", "b", "g"} {
+				if mask&(1<<k) != 0 {
+					ids = append(ids, id)
+				}
+			}
+			xc := proj.ToNodeList(obj(ev, "x"))
+			xc.RemoveNodes(ids)
+			rm = append(rm, map[string]any{"ids": ids, "r": proj.NodeList(xc)})
+		}
+		ev["rm"] = rm
+		rn := []any{}
+		for _, at := range []string{"a", "b", "g"} {
+			for _, n := range []*sbom.Node{{Id: "a", Name: "fresh"}, {Id: "c", Name: "new"}} {
+				xc := proj.ToNodeList(obj(ev, "x"))
+				err := xc.RelateNodeAtID(n, at, sbom.Edge_Type(5))
+				rn = append(rn, map[string]any{"at": at, "n": proj.Node(n), "err": errText(err), "r": proj.NodeList(xc)})
+			}
+		}
+		ev["rn"] = rn
 		return
 	case "ExtractAll":
 		// one (graph, start) of the exported universe through every extraction; the source compared afterwards
